@@ -75,18 +75,14 @@ def k1_instants(spans: List[List[int]]) -> set:
 
 @classifier("C03", "k1_zero_at_touching_instant")
 def _k1(v: Any, case: Any) -> bool:
-    """Every mis-parented / mis-placed event named by the witness has an endpoint at a K1 instant
-    of its thread (zero-duration event where one positive span ends and another begins)."""
+    """The witness thread has a K1 instant (zero-duration event where one positive span ends and another
+    begins) AND the driver's attribution test passed: with only the zero-duration events on K1 instants
+    removed, the real builder's result satisfies every clause (so nothing but K1 is wrong)."""
     w = v.witness
     spans = w.get("spans")
-    wrong = w.get("wrong_ids")
-    if not spans or not wrong:
+    if not spans or not w.get("k1_repair_clean"):
         return False
-    inst = k1_instants(spans)
-    if not inst:
-        return False
-    by = {i: (a, b) for i, a, b in spans}
-    return all(i in by and (by[i][0] in inst or by[i][1] in inst) for i in wrong)
+    return bool(k1_instants(spans))
 
 
 # K2 -------------------------------------------------------------------------------------------
